@@ -640,3 +640,235 @@ Section Link.
     - apply Hnull. apply (Hl (row, xe)). left. reflexivity.
   Qed.
 End Link.
+
+(* ================================================================== global nodal fields and their element restrictions *)
+From Coq Require Import Reals Lra.
+From Pymoto Require Import Model.Shape Model.ElemMat Proofs.ShapeP Proofs.ElemMatP.
+
+Section NodalField.
+  Context {K : Type} `{Num K}.
+
+  (* a nodal vector given by its value at (node, local dof) *)
+  Definition nodal_field (g : grid) (ndof : Z) (f : Z -> Z -> K) : list K :=
+    flat_map (fun n => map (f n) (zrange ndof)) (zrange (nnodes g)).
+
+  Lemma nth_flat_map_block {A B} (F : A -> list B) k l a b dA dB :
+    (forall x, length (F x) = k) -> (a < length l)%nat -> (b < k)%nat ->
+    nth (a * k + b) (flat_map F l) dB = nth b (F (nth a l dA)) dB.
+  Proof.
+    intros HF. revert a. induction l as [|x l IH]; intros a Ha Hb; cbn [length] in Ha; [lia|].
+    cbn [flat_map]. destruct a as [|a].
+    - cbn [Nat.mul Nat.add nth]. apply app_nth1. rewrite HF. exact Hb.
+    - rewrite app_nth2 by (rewrite HF; lia). rewrite HF.
+      replace (S a * k + b - k)%nat with (a * k + b)%nat by lia. cbn [nth]. apply IH; lia.
+  Qed.
+
+  Lemma nodal_field_length g ndof f : (0 <= ndof)%Z -> (0 <= nnodes g)%Z ->
+    length (nodal_field g ndof f) = Z.to_nat (asm_n g ndof).
+  Proof.
+    intros Hn Hg. unfold nodal_field.
+    rewrite (length_flat_map_const _ (Z.to_nat ndof)) by (intros; rewrite map_length, zrange_length; reflexivity).
+    rewrite zrange_length. unfold asm_n. rewrite Z2Nat.inj_mul by assumption. lia.
+  Qed.
+
+  Lemma vget_nodal_field g ndof f n d : (0 <= n < nnodes g)%Z -> (0 <= d < ndof)%Z ->
+    vget (nodal_field g ndof f) (Z.to_nat (n * ndof + d)) = f n d.
+  Proof.
+    intros Hn Hd. unfold vget, nodal_field.
+    replace (Z.to_nat (n * ndof + d)) with (Z.to_nat n * Z.to_nat ndof + Z.to_nat d)%nat
+      by (rewrite Z2Nat.inj_add, Z2Nat.inj_mul by nia; reflexivity).
+    rewrite (nth_flat_map_block _ (Z.to_nat ndof) _ _ _ 0%Z)
+      by (try (intros; rewrite map_length, zrange_length; reflexivity); rewrite ?zrange_length; lia).
+    rewrite nth_zrange by exact Hn.
+    rewrite (nth_indep _ nzero (f n 0%Z)) by (rewrite map_length, zrange_length; lia).
+    rewrite map_nth, nth_zrange by exact Hd. reflexivity.
+  Qed.
+
+  Lemma gather_nodal_field g ndof f e : wf g -> (0 <= ndof)%Z -> (0 <= e < nel g)%Z ->
+    gatherZ (nodal_field g ndof f) (dofconn g ndof e) = flat_map (fun n => map (f n) (zrange ndof)) (conn g e).
+  Proof.
+    intros Hwf Hn He. unfold dofconn. rewrite dofconn_row_flat. unfold gatherZ. rewrite map_flat_map.
+    apply flat_map_ext_In. intros n Hin. rewrite map_map. apply map_ext_in. intros d Hd.
+    apply vget_nodal_field; [eapply conn_range; eauto | apply in_zrange; exact Hd].
+  Qed.
+
+  (* values of a function of the Cartesian node indices at the corners of element e *)
+  Lemma conn_map_ijk {A} g e (phi : Z -> Z -> Z -> A) : wf g -> (0 <= e < nel g)%Z ->
+    map (fun n => phi (node_i g n) (node_j g n) (node_k g n)) (conn g e) =
+    map (fun c : Z * Z * Z => match c with (a, b, c) => phi (elem_i g e + a) (elem_j g e + b) (elem_k g e + c) end)%Z
+        (if Z.eqb (nelz g) 0 then corners2 else corners3).
+  Proof.
+    intros Hwf He. destruct (elem_num_inv g Hwf e He) as (Hi & Hj & Hk & _).
+    unfold conn. rewrite elemconn_corners by exact Hwf. rewrite map_map. apply map_ext_in. intros [[a b] c] Hc.
+    assert (Hab : (0 <= a <= 1 /\ 0 <= b <= 1)%Z).
+    { destruct (Z.eqb (nelz g) 0); unfold corners3, corners2 in Hc; cbn [app In] in Hc;
+        repeat (destruct Hc as [Hc|Hc]; [inversion Hc; subst; lia|]); contradiction. }
+    rewrite (node_i_num g), (node_j_num g), (node_k_num g Hwf) by lia. reflexivity.
+  Qed.
+End NodalField.
+
+Lemma hd_length {A} m n (M : list (list A)) : length M = S m -> Forall (fun r => length r = n) M -> length (hd [] M) = n.
+Proof. intros Hm HM. destruct M as [|r M]; [discriminate|]. inversion HM; subst. reflexivity. Qed.
+
+Lemma elemnodes_2d g : wf g -> nelz g = 0%Z -> elemnodes g = 4%Z.
+Proof. intros Hwf Hz. unfold elemnodes. rewrite (dim_wf g Hwf), Hz. reflexivity. Qed.
+
+Lemma elemnodes_3d g : wf g -> nelz g <> 0%Z -> elemnodes g = 8%Z.
+Proof.
+  intros Hwf Hz. unfold elemnodes. rewrite (dim_wf g Hwf). apply Z.eqb_neq in Hz. rewrite Hz. reflexivity.
+Qed.
+
+Lemma elem_k_2d g e : wf g -> nelz g = 0%Z -> (0 <= e < nel g)%Z -> elem_k g e = 0%Z.
+Proof.
+  intros Hwf Hz He. destruct (elem_num_inv g Hwf e He) as (_ & _ & Hk & _).
+  unfold nz1 in Hk. rewrite Hz in Hk. cbn in Hk. lia.
+Qed.
+
+Lemma nsum_combine_const {A} (l1 : list A) (x : list R) (c : R) : length l1 = length x ->
+  nsum (map (fun p : A * R => (snd p * c)%R) (combine l1 x)) = (c * nsum x)%R.
+Proof.
+  revert x; induction l1 as [|a l1 IH]; intros [|xe x] Hl; cbn in Hl; try discriminate; [cbn; lra|].
+  cbn [combine map snd]. rewrite !nsum_cons, IH by lia. unfold nadd; cbn [NumR]. lra.
+Qed.
+
+Open Scope R_scope.
+
+(* ================================================================== global theorems, 2-D *)
+Section Global2.
+  Variables (g : grid) (s3 hx hy hz : R).
+  Hypothesis Hwf : wf g.
+  Hypothesis H2d : nelz g = 0%Z.
+  Hypothesis Hx : hx <> 0.
+  Hypothesis Hy : hy <> 0.
+  Let h := [hx; hy; hz].
+
+  (* centre of element e *)
+  Let cx (e : Z) := hx * (IZR (elem_i g e) + 1 / 2).
+  Let cy (e : Z) := hy * (IZR (elem_j g e) + 1 / 2).
+
+  (* rigid motion of the whole mesh: u(n) = t + om * (-y_n, x_n) with (x_n, y_n) = get_node_position(n) *)
+  Definition rigid_field2 (tx ty om : R) (n d : Z) : R :=
+    if Z.eqb d 0 then tx - om * (hy * IZR (node_j g n)) else ty + om * (hx * IZR (node_i g n)).
+
+  Lemma gather_rigid2 tx ty om e : (0 <= e < nel g)%Z ->
+    gatherZ (nodal_field g 2 (rigid_field2 tx ty om)) (dofconn g 2 e) = rigid2 h tx ty om (cx e) (cy e).
+  Proof.
+    intros He. rewrite gather_nodal_field by (auto; lia).
+    rewrite flat_map_concat_map. unfold rigid_field2. change (zrange 2) with [0%Z; 1%Z].
+    rewrite (conn_map_ijk g e (fun i j k => map (fun d => if Z.eqb d 0 then tx - om * (hy * IZR j) else ty + om * (hx * IZR i)) [0%Z; 1%Z]) Hwf He).
+    rewrite H2d. unfold rigid2, h, nodepos, cx, cy.
+    cbn -[Rmult Rplus Rdiv Rminus IZR Rinv Ropp elem_i elem_j elem_k Z.add].
+    rewrite !plus_IZR. repeat (apply (f_equal2 (@cons R)); [field|]). reflexivity.
+  Qed.
+
+  Theorem stiffness2_global_rigid_null E nu mode bcd x tx ty om : (mode = 0 \/ mode = 1)%Z ->
+    let Ke := stiffness_element s3 2 h E nu mode in
+    let N := Z.to_nat (asm_n g 2) in
+    apply (to_triples (asm_ztriples g Ke None bcd x)) N (nodal_field g 2 (rigid_field2 tx ty om)) = vzero N.
+  Proof.
+    intros Hmode Ke N.
+    pose proof (stiffness2_shape s3 hx hy hz E nu mode) as Hsh. fold h in Hsh. fold Ke in Hsh.
+    assert (Hndof : asm_ndof g Ke = 2%Z).
+    { unfold asm_ndof. destruct Hsh as [L1 L2]. rewrite (hd_length 7 8 Ke L1 L2), (elemnodes_2d g Hwf H2d). reflexivity. }
+    pose proof (asm_apply_null RthR g Ke bcd x (nodal_field g 2 (rigid_field2 tx ty om))) as Hnull.
+    rewrite Hndof, (elemnodes_2d g Hwf H2d) in Hnull. apply Hnull; auto; try lia.
+    intros row Hrow. unfold dofconn_all in Hrow. apply in_map_iff in Hrow as (e & <- & He). apply in_zrange in He.
+    rewrite gather_rigid2 by exact He. apply stiffness2_rigid_null; assumption.
+  Qed.
+
+  (* ---- mass ---- *)
+  Definition dir_field (k : Z) (n d : Z) : R := if Z.eqb d k then 1 else 0.
+
+  Lemma unitv_zrange nd k : (0 <= k)%Z ->
+    map (fun d => if Z.eqb d k then 1 else 0) (zrange (Z.of_nat nd)) = unitv nd (Z.to_nat k).
+  Proof.
+    intros Hk. unfold zrange, unitv. rewrite Nat2Z.id, map_map. apply map_ext. intros j.
+    destruct (Z.eqb_spec (Z.of_nat j) k) as [E|E], (Nat.eqb_spec j (Z.to_nat k)) as [F|F]; try reflexivity; lia.
+  Qed.
+
+  Lemma gather_dir nd k e : (0 <= k)%Z -> (0 <= e < nel g)%Z ->
+    gatherZ (nodal_field g (Z.of_nat nd) (dir_field k)) (dofconn g (Z.of_nat nd) e) = dirvec nd 4 (Z.to_nat k).
+  Proof.
+    intros Hk He. rewrite gather_nodal_field by (auto; lia).
+    unfold dir_field. rewrite (flat_map_ext _ (fun _ => unitv nd (Z.to_nat k))) by (intros; apply unitv_zrange; exact Hk).
+    rewrite flat_map_const_concat, conn_length by exact Hwf. rewrite (elemnodes_2d g Hwf H2d). reflexivity.
+  Qed.
+
+  Theorem mass2_global_total mp nd k bcd x : (1 <= nd)%nat -> (k < nd)%nat -> length x = Z.to_nat (nel g) ->
+    let Me := mass_element s3 2 h mp nd in
+    let N := Z.to_nat (asm_n g (Z.of_nat nd)) in
+    let one_k := nodal_field g (Z.of_nat nd) (dir_field (Z.of_nat k)) in
+    dot one_k (apply (to_triples (asm_ztriples g Me None bcd x)) N one_k) = mp * (hx * hy * hz) * nsum x.
+  Proof.
+    intros Hnd Hk Hxl Me N one_k.
+    assert (Hsh : mshape (4 * nd) (4 * nd) Me) by exact (mass_shape s3 2 h mp nd).
+    assert (Hndof : asm_ndof g Me = Z.of_nat nd).
+    { unfold asm_ndof. destruct Hsh as [L1 L2].
+      rewrite (hd_length (4 * nd - 1) (4 * nd) Me) by (try exact L2; rewrite L1; lia).
+      rewrite (elemnodes_2d g Hwf H2d). rewrite Nat2Z.inj_mul, Z.mul_comm. apply Z.div_mul. lia. }
+    assert (Hnn : (0 <= nnodes g)%Z) by (destruct Hwf as (?&?&?); unfold nnodes; nia).
+    pose proof (asm_bilinear RthR g Me bcd x one_k one_k) as Hbil.
+    rewrite Hndof, (elemnodes_2d g Hwf H2d) in Hbil.
+    replace (Z.to_nat (4 * Z.of_nat nd)) with (4 * nd)%nat in Hbil by lia.
+    unfold N. rewrite Hbil; auto; try lia; try (apply nodal_field_length; lia).
+    rewrite (nsum_map_ext _ (fun p => snd p * (mp * (hx * hy * hz)))).
+    - rewrite nsum_combine_const by (rewrite dofconn_all_length; symmetry; exact Hxl). ring.
+    - intros [row xe] Hin. cbn [fst snd]. apply in_combine_l in Hin. unfold dofconn_all in Hin.
+      apply in_map_iff in Hin as (e & <- & He). apply in_zrange in He.
+      unfold one_k. rewrite gather_dir by (auto; lia). rewrite Nat2Z.id.
+      fold (quad Me (dirvec nd 4 k)). unfold Me, h. rewrite mass2_total by assumption. reflexivity.
+  Qed.
+
+  (* ---- Poisson ---- *)
+  Definition lin_field2 (c0 gx gy : R) (n d : Z) : R := c0 + gx * (hx * IZR (node_i g n)) + gy * (hy * IZR (node_j g n)).
+
+  Lemma gather_lin2 c0 gx gy e : (0 <= e < nel g)%Z ->
+    gatherZ (nodal_field g 1 (lin_field2 c0 gx gy)) (dofconn g 1 e) = linfield2 h (c0 + gx * cx e + gy * cy e) gx gy.
+  Proof.
+    intros He. rewrite gather_nodal_field by (auto; lia).
+    rewrite flat_map_concat_map. unfold lin_field2. change (zrange 1) with [0%Z].
+    rewrite (conn_map_ijk g e (fun i j k => map (fun d : Z => c0 + gx * (hx * IZR i) + gy * (hy * IZR j)) [0%Z]) Hwf He).
+    rewrite H2d. unfold linfield2, h, nodepos, cx, cy.
+    cbn -[Rmult Rplus Rdiv Rminus IZR Rinv Ropp elem_i elem_j elem_k Z.add].
+    rewrite !plus_IZR. repeat (apply (f_equal2 (@cons R)); [field|]). reflexivity.
+  Qed.
+
+  Lemma poisson2_ndof mp : asm_ndof g (poisson_element s3 2 h mp) = 1%Z.
+  Proof.
+    pose proof (poisson_shape s3 2 h mp) as [L1 L2]. unfold asm_ndof.
+    rewrite (hd_length 3 _ _ L1 L2), (elemnodes_2d g Hwf H2d). reflexivity.
+  Qed.
+
+  Theorem poisson2_global_constants mp bcd x c0 :
+    let Pe := poisson_element s3 2 h mp in
+    let N := Z.to_nat (asm_n g 1) in
+    apply (to_triples (asm_ztriples g Pe None bcd x)) N (nodal_field g 1 (lin_field2 c0 0 0)) = vzero N.
+  Proof.
+    intros Pe N.
+    pose proof (asm_apply_null RthR g Pe bcd x (nodal_field g 1 (lin_field2 c0 0 0))) as Hnull.
+    unfold Pe in Hnull. rewrite poisson2_ndof, (elemnodes_2d g Hwf H2d) in Hnull. apply Hnull; auto; try lia.
+    - apply (poisson_shape s3 2 h mp).
+    - intros row Hrow. unfold dofconn_all in Hrow. apply in_map_iff in Hrow as (e & <- & He). apply in_zrange in He.
+      rewrite gather_lin2 by exact He. apply poisson2_constants; assumption.
+  Qed.
+
+  Theorem poisson2_global_linear_energy mp bcd x c0 gx gy : length x = Z.to_nat (nel g) ->
+    let Pe := poisson_element s3 2 h mp in
+    let N := Z.to_nat (asm_n g 1) in
+    let u := nodal_field g 1 (lin_field2 c0 gx gy) in
+    dot u (apply (to_triples (asm_ztriples g Pe None bcd x)) N u) = mp * (hx * hy * hz) * (gx * gx + gy * gy) * nsum x.
+  Proof.
+    intros Hxl Pe N u.
+    assert (Hnn : (0 <= nnodes g)%Z) by (destruct Hwf as (?&?&?); unfold nnodes; nia).
+    pose proof (asm_bilinear RthR g Pe bcd x u u) as Hbil.
+    unfold Pe in Hbil. rewrite poisson2_ndof, (elemnodes_2d g Hwf H2d) in Hbil. fold Pe in Hbil. unfold N.
+    rewrite Hbil; auto; try lia; try (apply nodal_field_length; lia); try (apply (poisson_shape s3 2 h mp)).
+    rewrite (nsum_map_ext _ (fun p => snd p * (mp * (hx * hy * hz) * (gx * gx + gy * gy)))).
+    - rewrite nsum_combine_const by (rewrite dofconn_all_length; symmetry; exact Hxl). ring.
+    - intros [row xe] Hin. cbn [fst snd]. apply in_combine_l in Hin. unfold dofconn_all in Hin.
+      apply in_map_iff in Hin as (e & <- & He). apply in_zrange in He.
+      unfold u. rewrite gather_lin2 by exact He.
+      fold (quad Pe (linfield2 h (c0 + gx * cx e + gy * cy e) gx gy)). unfold Pe, h.
+      rewrite poisson2_linear_energy by assumption. reflexivity.
+  Qed.
+End Global2.
